@@ -148,7 +148,11 @@ def run(ctx, rep):
             vv = vmx.vmx(ctx)
             a0 = _psc.strip(_psc.sym(f, t['args'][0]))
             ok = a0[0] == 'call' and a0[1] == 'vm::VM::read_u8' and b in f.dominators().get(vv['switch'], ()) and b in vv['fn'].reachable(vv['header'])
-        rep.ob(ok, 'R02.2', f.path, 'OpCode::from(byte)', 'opcode bytes are decoded only at the instruction-fetch position', span_loc(t['span']))
+        how = ''
+        if not ok and f.path.startswith('compiler::'):
+            how = _decode_in_code_scan(F, f, b, t)
+            ok = bool(how)
+        rep.ob(ok, 'R02.2', f.path, 'OpCode::from(byte)', 'opcode bytes are decoded only at the instruction-fetch position' + (' (%s)' % how if how else ''), span_loc(t['span']))
     ntrans = 0
     for f in F.all_fns:
         for b, si, st in f.stmts():
@@ -477,6 +481,72 @@ def check_ranges(ctx, rep):
     check_frame_size(ctx, rep, 'R02.6')
     from rules import c09
     c09.check_visibility(ctx, rep, 'R02.6')
+
+
+def _decode_in_code_scan(F, f, b, t):
+    """OpCode::from(byte) inside the compiler (a read-only look at the code it has emitted) is the decoding of a byte written from
+    the enum when (a) a dominating test bounds the byte by the largest discriminant, or (b) the byte is `instructions[p]` for a
+    position p that starts at 0 and only ever advances by one plus the operand widths OpCode::operands() declares for the opcode
+    decoded at p - the walk then visits exactly the first bytes of the instructions (R02.1: the emit sequences agree with that table)"""
+    from rules.shared import int_of, LocalFlow
+    a = F.adt(tables.OPCODE)
+    top = max(v['discr'] for v in a['variants'])
+    val = _psc.strip(_psc.sym(f, t['args'][0]))
+    for fa in _psc.facts_at(f, b):
+        if fa[0] in ('Le', 'Lt') and _psc.strip(fa[1]) == val and int_of(fa[2]) is not None and int_of(fa[2]) <= (top if fa[0] == 'Le' else top + 1):
+            return 'the byte was tested to be at most %d, the largest opcode' % top
+    # (b)
+    d = f.def_rvalue(t['args'][0])
+    src = None
+    cur = t['args'][0]
+    for _ in range(6):
+        l = op_base_local(cur)
+        ds = f.defs().get(l, []) if l is not None else []
+        if len(ds) != 1:
+            break
+        if ds[0][0] == 'call':
+            src = f.term(ds[0][1])
+            break
+        rv = ds[0][3]
+        if rv['k'] in ('use', 'cast') and rv['op'].get('k') in ('copy', 'move'):
+            cur = rv['op']
+            continue
+        if rv['k'] == 'use' and rv['op'].get('k') == 'copy':
+            cur = rv['op']
+            continue
+        if rv['k'] == 'ref' or (rv['k'] == 'use'):
+            pl = rv.get('place') or (rv.get('op') or {}).get('place')
+            if pl and pl['proj'] and pl['proj'][0] == 'deref':
+                cur = {'k': 'copy', 'place': {'local': pl['local'], 'proj': []}}
+                continue
+        break
+    if src is None or 'ops::index::Index' not in callee_name(src) or len(src['args']) != 2:
+        return ''
+    if 'instructions' not in str(_psc.sym(f, src['args'][0])):
+        return ''
+    pl = op_base_local(src['args'][1])
+    if pl is None:
+        return ''
+    # the position variable: through copies to the multi-assigned local
+    seen = set()
+    while pl is not None and pl not in seen and len(f.defs().get(pl, [])) == 1 and f.defs()[pl][0][0] == 'assign' and f.defs()[pl][0][3]['k'] == 'use' \
+            and f.defs()[pl][0][3]['op'].get('k') in ('copy', 'move'):
+        seen.add(pl)
+        pl = f.defs()[pl][0][3]['op']['place']['local']
+    ds = f.defs().get(pl, [])
+    if len(ds) < 2:
+        return ''
+    lf = LocalFlow(f)
+    widths = {tt['dest']['local'] for bb, tt in f.calls() if callee_name(tt) == 'compiler::OpCode::operands'}
+    for d_ in ds:
+        if d_[0] == 'assign' and d_[3]['k'] == 'use' and d_[3]['op'].get('k') == 'const' and d_[3]['op'].get('int') == 0:
+            continue
+        if d_[0] == 'assign':
+            srcs = LocalFlow.locals_of(d_[3])
+            if any(lf.reaches(x, {pl}) is not None or x == pl for x in srcs) and any(lf.reaches(x, widths) is not None for x in srcs):
+                continue
+        return ''
+    return 'a walk over the emitted code from offset 0 that advances by 1 + the operand widths of the opcode just decoded'
 
 
 def check_frame_size(ctx, rep, rule):
